@@ -25,9 +25,12 @@ FORMULAS = {
     'F23': '=AVERAGE(A1,B1:B2)', 'F24': '=COUNTBLANK(A1,B1:B2)', 'F25': '=AND(A1:B1,C1)', 'F26': '=SUM(A1:B2)+SUM(T!A1:B2)', 'F27': '=SUM(A1:B2,A1:B2)', 'F28': '=AVERAGE(A1,A1,B1)', 'F29': '=COUNTBLANK(A1:B1,A1:B1)', 'F30': '=SUM(A1,A1,$A$1)',
     'F31': '=COUNT(A1:A2,B1:B2)', 'F32': '=COUNT(A1:B1,A2,B2,5)', 'F33': '=COUNT(A1:A2,B1:B2,T!A1:A2)', 'F34': '=MIN(A1:A2,B1:B2)', 'F35': '=MAX(B1:B2,A1:A2)',
     'F36': '=AVERAGE(A1:A2,B1:B2)', 'F37': '=COUNTBLANK(A1:A2,B1:B2)', 'F38': '=OR(A1:A2,B1:B2)', 'F39': '=COUNT(A1:A2,A1:A2)',
+    'F40': '=SUM(U!A:A)', 'F41': '=MAX(U!A:A)', 'F42': '=SUM(U!A1:D2)', 'F43': '=U!C2+1', 'F44': '=COUNTBLANK(U!A1:D2)', 'F45': '=COUNT(U!A:A,U!D:D)',
 }
 S = {'A1': 1, 'A2': 2, 'B1': 3, 'B2': 4, 'C1': 7, 'A3': 9}
 T = {'A1': 10, 'A2': 20, 'B1': 30, 'B2': 40, 'D1': '=SUM(A1:B2)', 'D2': '=COUNTBLANK(A1:B2)', 'D3': '=MAX(A1:B2)'}
+# third sheet: a blank inside the used part of column A (A3), rows shorter than the sheet is wide (rows 2 and 4 end at column A, the sheet at D)
+U = {'A1': 1, 'D1': 4, 'A2': 2, 'A4': 8}
 # formula cells live in rows 1-2 (columns H..), so that the used range of sheet S stays 3 rows: areas like A1:B12 really reach below it
 from openpyxl.utils import get_column_letter as _gcl
 ADDR = {f'F{i}': f'{_gcl(8 + (i - 1) // 2)}{1 + (i - 1) % 2}' for i in range(1, len(FORMULAS) + 1)}
@@ -36,11 +39,11 @@ TRANSLATE_ERRORS = []
 K = {}
 for _c, _f in FORMULAS.items():
     try:
-        K[_c] = build.load_class(build.translate([('S', dict(S, **{ADDR[_c]: _f})), ('T', dict(T))]), '_k' + _c)
+        K[_c] = build.load_class(build.translate([('S', dict(S, **{ADDR[_c]: _f})), ('T', dict(T)), ('U', dict(U))]), '_k' + _c)
     except Exception as _e:
         TRANSLATE_ERRORS.append((_f, f'{type(_e).__name__}: {_e}'))
 try:
-    KALL = build.load_class(build.translate([('S', dict(S, **{ADDR[c]: f for c, f in FORMULAS.items()})), ('T', dict(T))]), '_kall') if not TRANSLATE_ERRORS else None
+    KALL = build.load_class(build.translate([('S', dict(S, **{ADDR[c]: f for c, f in FORMULAS.items()})), ('T', dict(T)), ('U', dict(U))]), '_kall') if not TRANSLATE_ERRORS else None
 except Exception as _e:
     KALL = None
     TRANSLATE_ERRORS.append(('all aggregate formulas in one workbook', f'{type(_e).__name__}: {_e}'))
@@ -54,7 +57,7 @@ def ev(cell, sheet=0, spy_average=False, **ov):
     k = KALL or K[cell]
     args = []
     for a, v in ov.items():
-        si, ref = (1, a[1:]) if a[0] == 't' else (0, a)
+        si, ref = (1, a[1:]) if a[0] == 't' else (2, a[1:]) if a[0] == 'u' else (0, a)
         args.append({'uid': build.uid(si, ref), 'value': k.EmptyCell() if v is None else v})
     inst = k(args)
     if spy_average:
@@ -111,6 +114,14 @@ def run(report, tier, seed):
     add('sum_same_area_twice', 'F27', f'2 * sum(nums({vec}))')
     add('sum_same_cell_three_spellings', 'F30', 'sum(nums([a1, a1, a1]))')
     add('countblank_same_area_twice', 'F29', 'len([v for v in [a1, b1, a1, b1] if v is None or v == ""])')
+    s.add('whole_column_blank_inside_overridden', 'x: V, y: V', 'ok_text([x, y])', '''
+        return (ev('F40', uA3=x, uA2=y) == sum(nums([1, y, x, 8])) and ev('F41', uA3=x, uA2=y) == max(nums([1, y, x, 8]))
+                and ev('F45', uA3=x, uA2=y) == len(nums([1, y, x, 8])) + 1)
+    ''', encodes=enc, requires="'F40' in K and 'F41' in K and 'F45' in K")
+    s.add('area_over_rows_shorter_than_the_sheet', 'x: V, y: V', 'ok_text([x, y])', '''
+        return (ev('F42', uC2=x, uB1=y) == sum(nums([1, y, 4, 2, x])) and ev('F43') == 1
+                and ev('F44', uC2=x, uB1=y) == len([v for v in [y, None, None, x, None] if v is None or v == ""]))
+    ''', encodes=enc, requires="'F42' in K and 'F43' in K and 'F44' in K")
     add('count_two_areas', 'F31', f'len(nums({vec}))')
     add('count_area_cells_literal', 'F32', f'len(nums({vec})) + 1')
     add('count_three_areas_other_sheet', 'F33', f'len(nums({vec})) + 2')
